@@ -22,6 +22,7 @@ from harness.corr import c06_gen as G
 from harness.corr import c06_int as I
 from harness.corr import c06_read as R
 from harness.corr import c06_deps as D
+from harness.corr import c06_srt as S
 
 # (multiline, comments); single-line with comments is NOT documented as re-readable: a `#`
 # comment swallows the rest of the line (it is still written and parsed, never alarmed on).
@@ -679,6 +680,7 @@ def run_modules(chk, mods, buffers_per_struct, r, model_ok, tier, compiler="clan
         metas.append((mod, origin, prep, meta, lines))
     results = run_many_long(run_items, workers=6)
     int_checks, tok_texts, wvals, rvals = [], [], [], []
+    srts, srt_seen = [], set()
     shapes = {}
     second = []      # per module: [(meta index, line)] to run with a comma-repaired text
     for mi, ((mod, origin, prep, meta, lines), res) in enumerate(zip(metas, results)):
@@ -714,6 +716,16 @@ def run_modules(chk, mods, buffers_per_struct, r, model_ok, tier, compiler="clan
                 continue
             if model_ok and (opt[0], opt[1]) != LAYOUT_NOT_RR and "text" in kv:
                 add_rval(rvals, shapes, stats, st, kv)
+            if model_ok and (opt[0], opt[1]) == (0, 0) and "buf2" in kv and id(built) not in srt_seen:
+                srt_seen.add(id(built))
+                try:
+                    srts.append((S.srt_op(st, mod.default_order, prep["orders"], built), kv.get("upd") == "1",
+                                 kv["buf2"], st, prep, opt, I.unhex(kv["text"])))
+                except S.NoSrt as e:
+                    stats["srt_skipped"] = stats.get("srt_skipped", 0) + 1
+                    stats.setdefault("srt_skipped_why", {})
+                    why = str(e).split(" ")[0]
+                    stats["srt_skipped_why"][why] = stats["srt_skipped_why"].get(why, 0) + 1
             for ftag in struct_features(st):
                 stats["feature_" + ftag] = stats.get("feature_" + ftag, 0) + 1
             stats["options_m%d_c%d" % opt[:2]] = stats.get("options_m%d_c%d" % opt[:2], 0) + 1
@@ -826,6 +838,33 @@ def run_modules(chk, mods, buffers_per_struct, r, model_ok, tier, compiler="clan
                         "theorem_or_correspondence": "model_c06 RVAL vs UpdateFromText"}, found_input=False)
         chk.extra["txt_model_reader_ops"] = chk.extra.get("txt_model_reader_ops", 0) + len(rops)
         chk.extra["txt_model_reader_disagreements"] = chk.extra.get("txt_model_reader_disagreements", 0) + rdis
+        # the abstract structure round trip (update zeroBuf ∘ writeText on leaf descriptions) vs the
+        # bytes the real UpdateFromText left in its zeroed buffer
+        sans = common.Model("model_c06").ask([x[0] for x in srts]) if srts else []
+        sdis = 0
+        for (op, upd, buf2, st, prep, opt, text), a in zip(srts, sans):
+            skipf = G.skip_locates_emitted(st)
+            stats["srt_ops"] = stats.get("srt_ops", 0) + 1
+            if skipf:
+                stats["srt_ops_on_skip_finding_structs"] = stats.get("srt_ops_on_skip_finding_structs", 0) + 1
+            if a == "fail":
+                stats["srt_model_predicts_failure"] = stats.get("srt_model_predicts_failure", 0) + 1
+            want = ("ok " + (buf2 or "-")) if upd else "fail"
+            if a != want:
+                sdis += 1
+                if sdis <= 3:
+                    chk.violation("correspondence", {
+                        "op": op[:4000], "struct": st.name, "emb": prep["text"], "text": text,
+                        "options": dict(zip(("multiline", "comments", "base", "grouping"), opt)),
+                        "buffer": op.split(" ")[1], "observed": want, "model": a,
+                        "expected": "the abstract structure round trip (Lean update/writeText on the leaf "
+                                    "description) predicts the bytes after the real round trip",
+                        "predicate_skip_locates_emitted": skipf,
+                        "theorem_or_correspondence": "model_c06 SRT vs UpdateFromText(WriteToString)"},
+                        found_input=False)
+        chk.extra["txt_model_struct_roundtrip_ops"] = chk.extra.get("txt_model_struct_roundtrip_ops", 0) + len(srts)
+        chk.extra["txt_model_struct_roundtrip_disagreements"] = \
+            chk.extra.get("txt_model_struct_roundtrip_disagreements", 0) + sdis
         chk.extra["txt_model_ops"] = chk.extra.get("txt_model_ops", 0) + len(ops)
         chk.extra["txt_model_disagreements"] = chk.extra.get("txt_model_disagreements", 0) + dis
 
